@@ -131,6 +131,10 @@ def build(S):
             for up in (False, True):
                 S.contract("calcHy[lower=%s,upper=%s]" % (lo, up), FN_HY, make_hy_run(lo, up), expected_exceptions=(ValueError,), shape="nx=1, ny=2, distances strictly increasing (get_distance's guarantee): never raises", max_paths=3000)
         S.contract("calcHy[guard]", FN_HY, make_hy_run(False, False, increasing=False), expected_exceptions=(ValueError,), raises_ok=hy_raise_ok, shape="nx=1, ny=2, arbitrary distances: hy>0 or ValueError", max_paths=3000)
+        from . import chainkit
+
+        for per, st in ((False, 0), (True, 0), (False, 2)):
+            S.contract("calcPoloidalDistance[two-region chain,periodic=%s,startInd=%d]" % (per, st), FN_PD, chainkit.run_poloidal_distance(per, st), shape="two regions, nx=1")
         try:
             S.contract("get_distance[guard]", "hypnotoad.core.equilibrium:PsiContour.get_distance", run_get_distance, expected_exceptions=(ValueError,), raises_ok=dist_raise_ok, shape="4 points")
         except Exception as e:  # pragma: no cover
